@@ -1,5 +1,5 @@
 (* Model of pkg/policy/selector/parsing.go: tokenize, Parse, Selector.String. *)
-Require Import Base Node Selector.
+Require Import Base Node Selector Generated.
 Local Open Scope N_scope.
 
 Definition c_dot : N := 46.
@@ -43,7 +43,7 @@ Definition optint_form (l : str) : bool :=
 Definition digits_val (l : str) : Z := fold_left (fun a c => (a * 10 + Z.of_N (c - 48))%Z) l 0%Z.
 Definition int_val (l : str) : Z :=
   match l with c :: r => if c =? c_minus then (- digits_val r)%Z else digits_val l | [] => 0%Z end.
-Definition max53 : Z := 9007199254740991%Z.
+Definition max53 : Z := src_max_int53.   (* limits.MaxInt53, read from the source on every run *)
 Definition in53 (z : Z) : bool := ((- max53 <=? z) && (z <=? max53))%Z.
 
 (* ^\.[a-zA-Z_\p{L}][a-zA-Z0-9$_\p{L}\-]*$ restricted to ASCII *)
